@@ -605,6 +605,8 @@ read_file(econf_file *ef, const char *file,
 	p--;
       while (p > data && (isspace((unsigned)*p)))
 	p--;
+      if (quote_seen && p == data && isspace((unsigned)*p))
+	*p = '\0'; /* only blanks follow the opening quote */
       /* Strip double quotes only if both leading and trailing quotes exist. */
       if (p >= data && quote_seen) {
 	if (*p == '"')
